@@ -1,5 +1,8 @@
 import JaqalProofs.Lemmas.RunModelRefs
 import JaqalProofs.Lemmas.UsedQubitsSpec
+import JaqalProofs.Lemmas.ExpandFlat
+import JaqalProofs.Lemmas.PreFlat
+import JaqalProofs.Lemmas.ParsedGoodRefs
 /-!
 Lemmas for C03 over the whole run (`Props/C03Run.lean`): the token lists of `RunModel.RunSummary.traces` ARE the
 specification's gate applications (`Spec/Sem.lean`), rendered.
@@ -16,6 +19,12 @@ specification's gate applications (`Spec/Sem.lean`), rendered.
 * `semSkel_unroll` — unrolling that skeleton = `Sem.unroll`;
 * `traceTokens_spec` — the tokens of one serialised trace;
 * `flat_norm`, `unroll_norm` — `Sem.flat` and `Sem.unroll` do not see `Sem.norm`.
+* EXISTENCE of the meaning of the expanded circuit (section `Exists`): `VOK` — every register in a value is a `ValidChain`, a
+  literal index of a register lies inside it; `vok_of_valOK` (what the constructors checked, `ValOK`, on the typed constant-free
+  values `fill_in_let` returns); `substVal_vok` (a qubit reference rebuilt by `expand_macros` passed `NamedQubit.__init__` again:
+  `checkQubit_range`); `replStmt_v` … `expand_vok` (the induction of `Lemmas/ExpandFlat.lean` once more, for `VOK`: the expansion
+  `x` is `OS` — `VOK` arguments, ordinary blocks with count 1); `evOK_of_vok`, `evalStmt_ok`, `flat_os_meaning` (a flat typed `OS`
+  circuit has a meaning); `vs_of`, `allVals_spell`, `hasSub_skel` (the hypotheses for a parsed program).
 * `ArgAgree`, `argAgree_spec`, `RecRel.args` — the structured form of `argToken_spec` (no strings): the library's reading of an
   argument (`resolveQubit`, `resolveReg` of every element, the number itself) is the specification's value.
 -/
@@ -757,5 +766,544 @@ theorem RecRel.args {g : GateRec} {app : GateApp} (hr : RecRel g app) :
     g.2.2.length = app.2.length ∧
     ∀ (j : Nat) (a : String × Val) (sa : SArg), g.2.2[j]? = some a → app.2[j]? = some sa → ArgAgree a.2 sa :=
   ⟨(ExpandMacros.evalArgs_length hr.2.1).symm, evalArgs_agree _ _ hr.2.2 hr.2.1⟩
+
+
+section Exists
+open Jaqal.ExpandMacros
+
+/-! ### Values whose registers passed the constructors' checks -/
+
+/-- every register in the value is a valid chain; a qubit reference has no constant index, and a literal index of a register lies
+inside it -/
+def VOK : Val → Prop
+  | .qubit _ src idx => (Resolve.isRegister src = true → ValidChain src) ∧ (∀ n c, idx ≠ .const n c) ∧
+      (∀ i, idx = .int i → Resolve.isRegister src = true → ∃ K, sizeI src = some K ∧ 0 ≤ i ∧ i < K)
+  | .regF n sz => ValidChain (.regF n sz)
+  | .regA n src => ValidChain (.regA n src)
+  | .regS n src a b c => ValidChain (.regS n src a b c)
+  | _ => True
+
+theorem VOK_reg {v : Val} (hr : Resolve.isRegister v = true) (h : VOK v) : ValidChain v := by
+  cases v <;> simp [Resolve.isRegister] at hr <;> exact h
+
+theorem RegL_isRegister {v : Val} (h : RegL v = true) : Resolve.isRegister v = true := by
+  cases v <;> simp [RegL] at h <;> rfl
+
+/-- what `fill_in_let` returns (`ValP`: typed, constant-free) and the constructors checked (`ValOK`) is `VOK` -/
+theorem vok_of_valOK {P : List String} {v : Val} (ht : ValP P v = true) (hok : ValOK v) : VOK v := by
+  cases v with
+  | qubit nm src idx =>
+    simp only [ValP, Bool.and_eq_true, Bool.or_eq_true] at ht
+    simp only [ValOK] at hok
+    refine ⟨?_, ?_, ?_⟩
+    · intro hr
+      rcases ht.1 with h1 | h1
+      · exact RegL_validChain h1 hok.1
+      · cases src <;> simp [inP, Resolve.isRegister] at h1 hr
+    · intro n c hc
+      subst hc
+      rcases ht.2 with h1 | h1 <;> simp [isIntL, inP] at h1
+    · intro i hi hr
+      subst hi
+      have hL : RegL src = true := by
+        rcases ht.1 with h1 | h1
+        · exact h1
+        · cases src <;> simp [inP, Resolve.isRegister] at h1 hr
+      obtain ⟨k, hk⟩ := RegL_litSize src hL hok.1
+      obtain ⟨_, hs⟩ := C06_valid_of_builder hk hok.1
+      exact ⟨k, hs, hok.2.2 i k rfl hk⟩
+  | regF n sz => exact RegL_validChain (by simpa [ValP] using ht) hok
+  | regA n src => exact RegL_validChain (by simpa [ValP] using ht) hok
+  | regS n src a b c => exact RegL_validChain (by simpa [ValP] using ht) hok
+  | int _ => trivial
+  | flt _ => trivial
+  | const _ _ => trivial
+  | param _ _ => trivial
+  | none => trivial
+  | str _ => trivial
+
+/-- a closed typed value that is `VOK` has a meaning -/
+theorem evOK_of_vok {v : Val} (ht : argT v = true) (hk : VOK v) : ∃ sa, evalArg [] [] v = .ok sa := by
+  have reg : ∀ w : Val, ValidChain w → ∃ l, evalReg [] [] w = .ok l := by
+    intro w hw
+    obtain ⟨K, hK, _⟩ := validChain_sizeI hw
+    obtain ⟨l, hl, _⟩ := chain_spec hw hK
+    exact ⟨l, hl⟩
+  cases v with
+  | int k => exact ⟨_, rfl⟩
+  | flt d => exact ⟨_, rfl⟩
+  | qubit nm src idx =>
+    simp only [argT, Bool.and_eq_true] at ht
+    obtain ⟨h1, h2, h3⟩ := hk
+    have hr := RegT_isRegister' ht.1
+    have hv := h1 hr
+    have hidx : ∃ i, idx = .int i := by
+      cases idx <;> simp [isIntC] at ht
+      · exact ⟨_, rfl⟩
+      · exact absurd rfl (h2 _ _)
+    obtain ⟨i, rfl⟩ := hidx
+    obtain ⟨K, hK, h0, hlt⟩ := h3 i rfl hr
+    obtain ⟨l, hl, hlen, hin, _⟩ := chain_spec hv hK
+    obtain ⟨q, hq, _⟩ := hin i h0 hlt
+    refine ⟨.qubit q, ?_⟩
+    simp only [evalArg, evalQubit, evalInt, evalNum, hl, bind, Except.bind, pure, Except.pure, nth?_of_nonneg l h0, hq]
+  | regF n sz =>
+    obtain ⟨l, hl⟩ := reg _ hk
+    exact ⟨.reg l, by simp only [evalArg, hl, bind, Except.bind, pure, Except.pure]⟩
+  | regA n src =>
+    obtain ⟨l, hl⟩ := reg _ hk
+    exact ⟨.reg l, by simp only [evalArg, hl, bind, Except.bind, pure, Except.pure]⟩
+  | regS n src a b c =>
+    obtain ⟨l, hl⟩ := reg _ hk
+    exact ⟨.reg l, by simp only [evalArg, hl, bind, Except.bind, pure, Except.pure]⟩
+  | const _ _ => simp [argT, RegT] at ht
+  | param _ _ => simp [argT, RegT] at ht
+  | none => simp [argT, RegT] at ht
+  | str _ => simp [argT, RegT] at ht
+
+/-- `int(alias_from.size)` of a valid chain -/
+theorem sizeForCheck_valid {s : Val} {K : Int} (hv : ValidChain s) (hK : sizeI s = some K) : sizeForCheck s = .ok (some K) := by
+  obtain ⟨sz, h1', h3⟩ := UsedQubits.resolveSize_valid' hv hK
+  have h1 := h1' []
+  unfold sizeForCheck
+  rw [h1]
+  cases sz with
+  | int k => simp [intOf] at h3; subst h3; rfl
+  | const n x =>
+    cases x <;> simp [intOf] at h3
+    subst h3; rfl
+  | _ => simp [intOf] at h3
+
+/-- `NamedQubit.__init__` on a valid chain and a literal index: the index is in range -/
+theorem checkQubit_range {s : Val} {k K : Int} (hr : Resolve.isRegister s = true) (hv : ValidChain s) (hK : sizeI s = some K)
+    (h : checkQubit s (.int k) = .ok ()) : 0 ≤ k ∧ k < K := by
+  have hsa : avKind? s = none := by cases s <;> simp [Resolve.isRegister] at hr <;> rfl
+  have hia : avKind? (Val.int k) = none := rfl
+  unfold checkQubit at h
+  split at h
+  · cases h
+  · rw [hia, hsa] at h
+    simp only [sizeForCheck_valid hv hK, bind, Except.bind] at h
+    by_cases hc : (decide (k < 0) || decide (k ≥ K)) = true
+    · simp only [hc, if_true] at h
+      cases h
+    · simp only [Bool.or_eq_true, decide_eq_true_eq, not_or, Int.not_lt, ge_iff_le, Int.not_le] at hc
+      exact hc
+
+theorem substVal_param_vok {P : List String} {args : List (String × Val)} (hvok : ∀ e ∈ args, VOK e.2)
+    (hcov : ∀ p ∈ P, ∃ a, lookupArg args p = some a) {v w : Val} (hv : inP P v = true) (h : substVal args v = .ok w) :
+    VOK w := by
+  cases v <;> simp [inP] at hv
+  rename_i n k
+  obtain ⟨a, ha⟩ := hcov n hv
+  simp only [substVal, ha] at h
+  split at h
+  · cases h
+    obtain ⟨e, he, rfl⟩ := lookupArg_mem ha
+    exact hvok e he
+  · cases h
+
+/-- **substitution keeps `VOK`**: a rebuilt qubit reference passed `NamedQubit.__init__` again -/
+theorem substVal_vok {P : List String} {args : List (String × Val)} (hargs : ∀ e ∈ args, argT e.2 = true)
+    (hvok : ∀ e ∈ args, VOK e.2) (hcov : ∀ p ∈ P, ∃ a, lookupArg args p = some a) {v w : Val}
+    (hv : ValP P v = true) (hk : VOK v) (h : substVal args v = .ok w) : VOK w := by
+  cases v with
+  | int _ => simp only [substVal, pure, Except.pure] at h; cases h; trivial
+  | flt _ => simp only [substVal, pure, Except.pure] at h; cases h; trivial
+  | param n k => exact substVal_param_vok hvok hcov (by simpa [ValP, inP] using hv) h
+  | none => simp [ValP, RegL] at hv
+  | str _ => simp [ValP, RegL] at hv
+  | const _ _ => simp [ValP, RegL] at hv
+  | regF n s => simp only [substVal, pure, Except.pure] at h; cases h; exact hk
+  | regA n s => simp only [substVal, pure, Except.pure] at h; cases h; exact hk
+  | regS n s a b c => simp only [substVal, pure, Except.pure] at h; cases h; exact hk
+  | qubit nm src idx =>
+    simp only [ValP, Bool.and_eq_true, Bool.or_eq_true] at hv
+    simp only [substVal] at h
+    obtain ⟨s, hs, h⟩ := bind_ok h
+    split at h
+    · cases h
+    · rename_i harr
+      have harr' : isArrayLike s = true := by simpa using harr
+      obtain ⟨i, hi, h⟩ := bind_ok h
+      have hsT : RegT s = true := by
+        rcases hv.1 with h1 | h1
+        · rw [substVal_reg (RegL_isReg h1)] at hs
+          cases hs; exact RegL_RegT _ h1
+        · exact argT_arrayLike (substVal_param_in hargs hcov h1 hs) harr'
+      have hsV : ValidChain s := by
+        rcases hv.1 with h1 | h1
+        · rw [substVal_reg (RegL_isReg h1)] at hs
+          cases hs; exact hk.1 (RegL_isRegister h1)
+        · exact VOK_reg (RegT_isRegister' hsT) (substVal_param_vok hvok hcov h1 hs)
+      have hiT : argT i = true := by
+        rcases hv.2 with h1 | h1
+        · cases idx <;> simp [isIntL] at h1
+          simp only [substVal, pure, Except.pure] at hi; cases hi; rfl
+        · exact substVal_param_in hargs hcov h1 hi
+      have key : ∀ nm' : String, (do
+          checkQubit s (filterFloat i)
+          let t ← strIndex (filterFloat i)
+          pure (Val.qubit (nm' ++ "[" ++ t ++ "]") s (filterFloat i)) : M Val) = .ok w → VOK w := by
+        intro nm' hh
+        obtain ⟨u, hu, hh⟩ := bind_ok hh
+        obtain ⟨t, _, hh⟩ := bind_ok hh
+        simp only [pure, Except.pure, Except.ok.injEq] at hh
+        subst hh
+        have hL := checkQubit_closed hsT hiT (by cases u; exact hu)
+        cases hff : filterFloat i <;> rw [hff] at hL <;> simp [isIntL] at hL
+        rename_i k
+        rw [hff] at hu
+        refine ⟨fun _ => hsV, fun n c hc => (by cases hc), ?_⟩
+        intro k' hk' _
+        cases hk'
+        obtain ⟨K, hK, _⟩ := validChain_sizeI hsV
+        exact ⟨K, hK, checkQubit_range (RegT_isRegister' hsT) hsV hK (by cases u; exact hu)⟩
+      unfold ExpandMacros.getItem at h
+      cases s <;> simp [RegT] at hsT <;> simp only [Val.name?] at h <;> exact key _ h
+
+theorem substArgs_vok {P : List String} {args : List (String × Val)} (hargs : ∀ e ∈ args, argT e.2 = true)
+    (hvok : ∀ e ∈ args, VOK e.2) (hcov : ∀ p ∈ P, ∃ a, lookupArg args p = some a) :
+    ∀ (gargs new : List (String × Val)), (∀ a ∈ gargs, ValP P a.2 = true) → (∀ a ∈ gargs, VOK a.2) →
+      substArgs args gargs = .ok new → ∀ a ∈ new, VOK a.2
+  | [], new, _, _, h => by simp only [substArgs, pure, Except.pure] at h; cases h; intro a ha; cases ha
+  | (n, v) :: rest, new, hv, hk, h => by
+    simp only [substArgs] at h
+    obtain ⟨v', hv', h⟩ := bind_ok h
+    obtain ⟨rest', hr, h⟩ := bind_ok h
+    cases h
+    intro a ha
+    rcases List.mem_cons.1 ha with rfl | ha
+    · exact substVal_vok hargs hvok hcov (hv (n, v) (List.mem_cons_self ..)) (hk (n, v) (List.mem_cons_self ..)) hv'
+    · exact substArgs_vok hargs hvok hcov rest rest' (fun a ha => hv a (List.mem_cons_of_mem _ ha))
+        (fun a ha => hk a (List.mem_cons_of_mem _ ha)) hr a ha
+
+/-! ### Statements -/
+
+mutual
+  /-- input: gate arguments are `VOK`, no subcircuit block -/
+  def VS : Stmt → Prop
+    | .gate _ _ args => ∀ a ∈ args, VOK a.2
+    | .block _ sub _ body => sub = false ∧ VSL body
+    | .loop _ b => VS b
+  def VSL : List Stmt → Prop
+    | [] => True
+    | s :: r => VS s ∧ VSL r
+end
+
+mutual
+  /-- output: gate arguments are `VOK`, every block is an ordinary block with the iteration count 1 -/
+  def OS : Stmt → Prop
+    | .gate _ _ args => ∀ a ∈ args, VOK a.2
+    | .block _ sub it body => sub = false ∧ neq1 it = false ∧ OSL body
+    | .loop _ b => OS b
+  def OSL : List Stmt → Prop
+    | [] => True
+    | s :: r => OS s ∧ OSL r
+end
+
+theorem OSL_append : ∀ (a b : List Stmt), OSL a → OSL b → OSL (a ++ b)
+  | [], _, _, hb => hb
+  | _ :: r, b, ha, hb => ⟨ha.1, OSL_append r b ha.2 hb⟩
+
+theorem OS_spliceInto (par : Bool) (s : Stmt) (r : List Stmt) (hs : OS s) (hr : OSL r) : OSL (spliceInto par s r) := by
+  unfold spliceInto
+  split
+  · split
+    · simp only [OS] at hs
+      exact OSL_append _ _ hs.2.2 hr
+    · exact ⟨hs, hr⟩
+  · exact ⟨hs, hr⟩
+
+theorem mkBlock_os {par : Bool} {it : Val} {body : List Stmt} {s : Stmt} (h : mkBlock par false it body = .ok s)
+    (hb : OSL body) : OS s := by
+  have hit : neq1 it = false := by
+    unfold mkBlock at h
+    split at h
+    · cases h
+    · next hc => simpa using hc
+  rw [mkBlock_ok h]
+  exact ⟨rfl, hit, hb⟩
+
+/-- the property of `call` the induction needs -/
+def CallV (nat : List GateDef) (ms : List Macro) (call : Stmt → M Stmt) : Prop :=
+  ∀ (n : String) (gd : GateDef) (a : List (String × Val)) (g' : Stmt), GateStatic nat ms n gd →
+    a.map (·.1) = gd.params.map (·.1) → (∀ e ∈ a, argT e.2 = true) → (∀ e ∈ a, VOK e.2) →
+    GateDef.validateAll gd.params a = .ok () → call (.gate n gd a) = .ok g' → OS g'
+
+section vok
+variable (nat : List GateDef) (ms : List Macro)
+
+mutual
+  theorem replStmt_v (call : Stmt → M Stmt) (hc : CallV nat ms call) (P : List String)
+      (args : List (String × Val)) (hargs : ∀ e ∈ args, argT e.2 = true) (hvok : ∀ e ∈ args, VOK e.2)
+      (hcov : ∀ p ∈ P, ∃ a, lookupArg args p = some a) :
+      ∀ (s s' : Stmt), PreS nat ms P s → VS s → replStmt call args s = .ok s' → OS s'
+    | .gate n gd gargs, s', hp, hvs, h => by
+      obtain ⟨hst, hn, hv, _⟩ := hp
+      simp only [replStmt] at h
+      obtain ⟨new, hnew, h⟩ := bind_ok h
+      obtain ⟨g, hg, h⟩ := bind_ok h
+      obtain ⟨hnn, hna⟩ := substArgs_typed hargs hcov gargs new hv hnew
+      have hnv := substArgs_vok hargs hvok hcov gargs new hv hvs hnew
+      have hnames : new.map (·.1) = gd.params.map (·.1) := by rw [hnn, hn]
+      rw [callKw_eq_finish hnames hst.nodup] at hg
+      unfold GateDef.finish at hg
+      split at hg
+      · simp [throw, throwThe, MonadExceptOf.throw, bind, Except.bind] at hg
+      · obtain ⟨u, hu, hg⟩ := bind_ok hg
+        cases hg
+        refine hc gd.name gd new s' ?_ hnames hna hnv (by cases u; exact hu) h
+        have := hst.name
+        subst this
+        exact hst
+    | .loop c body, s', hp, hvs, h => by
+      obtain ⟨_, _, hb⟩ := hp
+      simp only [replStmt] at h
+      obtain ⟨c', _, h⟩ := bind_ok h
+      obtain ⟨b', hb', h⟩ := bind_ok h
+      obtain ⟨rfl, _⟩ := mkLoop_ok h
+      exact replStmt_v call hc P args hargs hvok hcov body b' hb hvs hb'
+    | .block par sub it body, s', hp, hvs, h => by
+      simp only [PreS] at hp
+      obtain ⟨rfl, hvb⟩ := hvs
+      simp only [replStmt] at h
+      obtain ⟨stmts, hs, h⟩ := bind_ok h
+      obtain ⟨it', _, h⟩ := bind_ok h
+      exact mkBlock_os h (replList_v call hc P args hargs hvok hcov par body stmts hp hvb hs)
+  theorem replList_v (call : Stmt → M Stmt) (hc : CallV nat ms call) (P : List String)
+      (args : List (String × Val)) (hargs : ∀ e ∈ args, argT e.2 = true) (hvok : ∀ e ∈ args, VOK e.2)
+      (hcov : ∀ p ∈ P, ∃ a, lookupArg args p = some a) (par : Bool) :
+      ∀ (l l' : List Stmt), PreSL nat ms P l → VSL l → replList call args par l = .ok l' → OSL l'
+    | [], l', _, _, h => by simp only [replList, pure, Except.pure] at h; cases h; trivial
+    | s :: r, l', hp, hvs, h => by
+      simp only [replList] at h
+      obtain ⟨s', hs', h⟩ := bind_ok h
+      obtain ⟨r', hr', h⟩ := bind_ok h
+      cases h
+      exact OS_spliceInto par s' r' (replStmt_v call hc P args hargs hvok hcov s s' hp.1 hvs.1 hs')
+        (replList_v call hc P args hargs hvok hcov par r r' hp.2 hvs.2 hr')
+end
+
+theorem replaceGate_v (hms : ∀ m ∈ ms, PreS nat ms (m.params.map (·.1)) m.body) (hvm : ∀ m ∈ ms, VS m.body) :
+    ∀ (fuel : Nat), CallV nat ms (replaceGate ms fuel) := by
+  intro fuel
+  induction fuel with
+  | zero =>
+    intro n gd a g' hst hn ha hk hval h
+    simp only [replaceGate] at h
+    cases hf : findMacro ms n with
+    | none => rw [hf] at h; simp only [pure, Except.pure] at h; cases h; exact hk
+    | some m => rw [hf] at h; simp only at h; split at h <;> cases h
+  | succ f ih =>
+    intro n gd a g' hst hn ha hk hval h
+    simp only [replaceGate] at h
+    cases hf : findMacro ms n with
+    | none => rw [hf] at h; simp only [pure, Except.pure] at h; cases h; exact hk
+    | some m =>
+      rw [hf] at h; simp only at h
+      split at h
+      · cases h
+      · have hmem : m ∈ ms := List.mem_of_find?_eq_some hf
+        refine replStmt_v nat ms (replaceGate ms f) ih (m.params.map (·.1)) a ha hk ?_ m.body g' (hms m hmem)
+          (hvm m hmem) h
+        intro p hp
+        apply lookupArg_of_names
+        rw [hn, hst.mac m hf]
+        exact hp
+
+mutual
+  theorem expStmt_v (call : Stmt → M Stmt) (hc : CallV nat ms call) :
+      ∀ (s s' : Stmt), PreS nat ms [] s → VS s → expStmt call s = .ok s' → OS s'
+    | .gate n gd gargs, s', hp, hvs, h => by
+      obtain ⟨hst, hn, hv, hval⟩ := hp
+      simp only [expStmt] at h
+      exact hc n gd gargs s' hst hn (fun e he => ValP_nil_argT (hv e he)) hvs hval h
+    | .loop c body, s', hp, hvs, h => by
+      obtain ⟨_, _, hb⟩ := hp
+      simp only [expStmt] at h
+      obtain ⟨b', hb', h⟩ := bind_ok h
+      obtain ⟨rfl, _⟩ := mkLoop_ok h
+      exact expStmt_v call hc body b' hb hvs hb'
+    | .block par sub it body, s', hp, hvs, h => by
+      simp only [PreS] at hp
+      obtain ⟨rfl, hvb⟩ := hvs
+      simp only [expStmt] at h
+      obtain ⟨stmts, hs, h⟩ := bind_ok h
+      exact mkBlock_os h (expList_v call hc par body stmts hp hvb hs)
+  theorem expList_v (call : Stmt → M Stmt) (hc : CallV nat ms call) (par : Bool) :
+      ∀ (l l' : List Stmt), PreSL nat ms [] l → VSL l → expList call par l = .ok l' → OSL l'
+    | [], l', _, _, h => by simp only [expList, pure, Except.pure] at h; cases h; trivial
+    | s :: r, l', hp, hvs, h => by
+      simp only [expList] at h
+      obtain ⟨s', hs', h⟩ := bind_ok h
+      obtain ⟨r', hr', h⟩ := bind_ok h
+      cases h
+      exact OS_spliceInto par s' r' (expStmt_v call hc s s' hp.1 hvs.1 hs') (expList_v call hc par r r' hp.2 hvs.2 hr')
+end
+
+end vok
+
+/-! ### The expansion of a filled circuit -/
+
+theorem expand_vok {c x : Circuit} (hp : PreC c) (hvb : VS c.body) (hvm : ∀ m ∈ c.macros, VS m.body)
+    (h : expandMacros false c = .ok x) : OS x.body := by
+  unfold expandMacros at h
+  obtain ⟨body, hbody, h⟩ := bind_ok h
+  obtain ⟨stmts, hstmts, h⟩ := bind_ok h
+  simp only [pure, Except.pure] at h
+  cases h
+  have hcall := replaceGate_v c.natives c.macros hp.macros hvm c.macros.length
+  have hos := expStmt_v c.natives c.macros _ hcall c.body body hp.body hvb hbody
+  have hiter : ∀ (s : Stmt) (l : List Stmt), OS s → iterStmts s = .ok l → OSL l := by
+    intro s
+    induction s using Stmt.rec (motive_2 := fun _ => True) with
+    | gate _ _ _ => intro l _ hl; cases hl
+    | block _ _ _ b _ => intro l hb' hl; simp only [iterStmts, pure, Except.pure] at hl; cases hl; exact hb'.2.2
+    | loop _ b ih => intro l hb' hl; simp only [iterStmts] at hl; exact ih l hb' hl
+    | nil => trivial
+    | cons _ _ _ _ => trivial
+  have hl : OSL stmts := by
+    cases body with
+    | block par sub it b => simp only [statementsOf, pure, Except.pure] at hstmts; cases hstmts; exact hos.2.2
+    | gate _ _ _ => cases hstmts
+    | loop cnt b => simp only [statementsOf] at hstmts; exact hiter b stmts hos hstmts
+  exact ⟨rfl, rfl, hl⟩
+
+/-! ### A flat typed statement with `VOK` arguments has a meaning -/
+
+theorem evalArgs_ok : ∀ (args : List (String × Val)), (∀ a ∈ args, ∃ sa, evalArg [] [] a.2 = .ok sa) →
+    ∃ vs, evalArgs [] [] args = .ok vs
+  | [], _ => ⟨[], rfl⟩
+  | a :: r, h => by
+    obtain ⟨x, hx⟩ := h a (List.mem_cons_self ..)
+    obtain ⟨xs, hxs⟩ := evalArgs_ok r (fun b hb => h b (List.mem_cons_of_mem _ hb))
+    exact ⟨x :: xs, by simp only [evalArgs, hx, hxs, bind, Except.bind, pure, Except.pure]⟩
+
+mutual
+  theorem evalStmt_ok : ∀ (s : Stmt), (∀ g ∈ gatesOf s, ∀ a ∈ g.2.2, argT a.2 = true) → skelT s = true → OS s →
+      ∃ m, evalStmt [] [] [] s = .ok m
+    | .gate n gd args, ht, _, ho => by
+      obtain ⟨vs, hvs⟩ := evalArgs_ok args (fun a ha =>
+        evOK_of_vok (ht (n, gd, args) (by simp [gatesOf]) a ha) (ho a ha))
+      refine ⟨.gate n vs, ?_⟩
+      rw [evalStmt_gate, hvs]
+      rfl
+    | .block par sub it body, ht, hs, ho => by
+      obtain ⟨_, hit, hb⟩ := ho
+      obtain ⟨ms, hms⟩ := evalStmts_ok body (by simpa only [gatesOf] using ht) (by simpa only [skelT] using hs) hb
+      exact ⟨.blk par sub 1 ms, by
+        simp only [evalStmt, neq1_false_evalInt hit, hms, bind, Except.bind, pure, Except.pure]⟩
+    | .loop (.int k) (.block par sub it b), ht, hs, ho => by
+      obtain ⟨m, hm⟩ := evalStmt_ok (.block par sub it b) (by simpa only [gatesOf] using ht)
+        (by simpa only [skelT] using hs) (by simpa only [OS] using ho)
+      refine ⟨.loop k m, ?_⟩
+      have e : evalStmt [] [] [] (.loop (.int k) (.block par sub it b)) =
+          (do let n ← evalInt [] [] (.int k); pure (.loop n (← evalStmt [] [] [] (.block par sub it b)))) := by
+        simp only [evalStmt]
+      rw [e, hm]
+      rfl
+    | .loop (.int _) (.gate _ _ _), _, h, _ | .loop (.int _) (.loop _ _), _, h, _ => by simp [skelT] at h
+    | .loop (.flt _) _, _, h, _ | .loop (.const _ _) _, _, h, _ | .loop (.param _ _) _, _, h, _
+    | .loop (.qubit _ _ _) _, _, h, _ | .loop (.regF _ _) _, _, h, _ | .loop (.regA _ _) _, _, h, _
+    | .loop (.regS _ _ _ _ _) _, _, h, _ | .loop .none _, _, h, _ | .loop (.str _) _, _, h, _ => by simp [skelT] at h
+  theorem evalStmts_ok : ∀ (l : List Stmt), (∀ g ∈ gatesOfList l, ∀ a ∈ g.2.2, argT a.2 = true) → skelTList l = true →
+      OSL l → ∃ ms, evalStmts [] [] [] l = .ok ms
+    | [], _, _, _ => ⟨[], rfl⟩
+    | s :: r, ht, hs, ho => by
+      simp only [skelTList, Bool.and_eq_true] at hs
+      obtain ⟨x, hx⟩ := evalStmt_ok s (fun g hg => ht g (by simp only [gatesOfList, List.mem_append]; exact Or.inl hg))
+        hs.1 ho.1
+      obtain ⟨xs, hxs⟩ := evalStmts_ok r (fun g hg => ht g (by simp only [gatesOfList, List.mem_append]; exact Or.inr hg))
+        hs.2 ho.2
+      exact ⟨x :: xs, by simp only [evalStmts, hx, hxs, bind, Except.bind, pure, Except.pure]⟩
+end
+
+/-- a flat typed circuit whose statements are `OS` has a meaning -/
+theorem flat_os_meaning {x : Circuit} (hf : FlatT x = true) (ho : OS x.body) : ∃ m, evalStmt [] [] [] x.body = .ok m := by
+  have hargs : ∀ g ∈ gatesOf x.body, ∀ a ∈ g.2.2, argT a.2 = true := by
+    simp only [FlatT, Bool.and_eq_true] at hf
+    exact usedT_gates x.body hf.1.1.2
+  simp only [FlatT, Bool.and_eq_true] at hf
+  exact evalStmt_ok x.body hargs hf.1.1.1.2 ho
+
+/-! ### What `fill_in_let` returns of a parsed program is `VS` -/
+
+theorem allValsList_append {Q : Val → Prop} : ∀ (a b : List Stmt), AllValsList Q a → AllValsList Q b → AllValsList Q (a ++ b)
+  | [], _, _, hb => hb
+  | _ :: r, b, ha, hb => ⟨ha.1, allValsList_append r b ha.2 hb⟩
+
+mutual
+  theorem allVals_spell {Q : Val → Prop} (p m : Stmt) (hp : AllVals Q p) (hm : AllVals Q m) :
+      ∀ (s : Stmt), AllVals Q s → AllVals Q (ExpandSubcircuits.spell p m s)
+    | .gate n gd a, h => by simpa only [ExpandSubcircuits.spell] using h
+    | .loop c b, h => by
+      simp only [ExpandSubcircuits.spell, AllVals] at h ⊢
+      exact ⟨h.1, allVals_spell p m hp hm b h.2⟩
+    | .block par sub it body, h => by
+      simp only [AllVals] at h
+      have hb := allValsList_spell p m hp hm body h.2
+      simp only [ExpandSubcircuits.spell]
+      split
+      · simp only [AllVals]
+        refine ⟨fun hh => (by cases hh), hp, ?_⟩
+        exact allValsList_append _ _ hb ⟨hm, trivial⟩
+      · simp only [AllVals]
+        exact ⟨fun hh => (by cases hh), hb⟩
+  theorem allValsList_spell {Q : Val → Prop} (p m : Stmt) (hp : AllVals Q p) (hm : AllVals Q m) :
+      ∀ (l : List Stmt), AllValsList Q l → AllValsList Q (ExpandSubcircuits.spellList p m l)
+    | [], _ => by simp only [ExpandSubcircuits.spellList, AllValsList]
+    | s :: r, h => by
+      simp only [ExpandSubcircuits.spellList, AllValsList] at h ⊢
+      exact ⟨allVals_spell p m hp hm s h.1, allValsList_spell p m hp hm r h.2⟩
+end
+
+mutual
+  theorem vs_of (nat : List GateDef) (ms : List Macro) (P : List String) : ∀ (s : Stmt), PreS nat ms P s →
+      AllVals ValOK s → ExpandSubcircuits.hasSub s = false → VS s
+    | .gate n gd args, hp, hv, _ => by
+      obtain ⟨_, _, hvp, _⟩ := hp
+      intro a ha
+      exact vok_of_valOK (hvp a ha) (hv a ha)
+    | .block par sub it body, hp, hv, hs => by
+      simp only [ExpandSubcircuits.hasSub, Bool.or_eq_false_iff] at hs
+      simp only [PreS] at hp
+      simp only [AllVals] at hv
+      exact ⟨hs.1, vsl_of nat ms P body hp hv.2 hs.2⟩
+    | .loop c b, hp, hv, hs => by
+      simp only [ExpandSubcircuits.hasSub] at hs
+      simp only [AllVals] at hv
+      exact vs_of nat ms P b hp.2.2 hv.2 hs
+  theorem vsl_of (nat : List GateDef) (ms : List Macro) (P : List String) : ∀ (l : List Stmt), PreSL nat ms P l →
+      AllValsList ValOK l → ExpandSubcircuits.hasSubList l = false → VSL l
+    | [], _, _, _ => trivial
+    | s :: r, hp, hv, hs => by
+      simp only [ExpandSubcircuits.hasSubList, Bool.or_eq_false_iff] at hs
+      exact ⟨vs_of nat ms P s hp.1 hv.1 hs.1, vsl_of nat ms P r hp.2 hv.2 hs.2⟩
+end
+
+mutual
+  /-- does the skeleton hold a subcircuit block? -/
+  def skelSub : Skel → Bool
+    | .gate _ _ => false
+    | .block _ sub l => sub || skelSubList l
+    | .loop b => skelSub b
+  def skelSubList : List Skel → Bool
+    | [] => false
+    | s :: r => skelSub s || skelSubList r
+end
+
+mutual
+  theorem hasSub_skel : ∀ (s : Stmt), ExpandSubcircuits.hasSub s = skelSub (skel s)
+    | .gate _ _ _ => rfl
+    | .block par sub it body => by
+      simp only [ExpandSubcircuits.hasSub, skel, skelSub, hasSubList_skel body]
+    | .loop c b => by simp only [ExpandSubcircuits.hasSub, skel, skelSub, hasSub_skel b]
+  theorem hasSubList_skel : ∀ (l : List Stmt), ExpandSubcircuits.hasSubList l = skelSubList (skels l)
+    | [] => rfl
+    | s :: r => by simp only [ExpandSubcircuits.hasSubList, skels, skelSubList, hasSub_skel s, hasSubList_skel r]
+end
+
+end Exists
 
 end Jaqal.RunModel
